@@ -210,7 +210,8 @@ def oracle(case, ctx):
 
     for m in methods:
         fn = getattr(est, m)
-        base = sut(fn, wrap(Xap, case["apply_container"], None, lens_ap))
+        Xobj = wrap(Xap, case["apply_container"], None, lens_ap)
+        base = sut(fn, Xobj)
         if isinstance(base, Raised):
             discs.append(D("apply_raised:%s.%s:%s@%s" % (spec["kind"], m, base.type, base.where), base.msg))
             continue
@@ -218,6 +219,22 @@ def oracle(case, ctx):
         if len(b) != n:
             discs.append(D("row_count:%s.%s" % (spec["kind"], m), "%d rows for %d instances" % (len(b), n)))
             continue
+        # the SAME container object, its instances reordered in place between two calls
+        if lens_ap is None and case.get("reorder_in_place", True):
+            if isinstance(Xobj, np.ndarray):
+                Xobj[:] = Xobj[perm].copy()
+            else:
+                cells = [[Xobj.iat[i, j] for j in range(Xobj.shape[1])] for i in perm]
+                for r_, row in enumerate(cells):
+                    for j, v in enumerate(row):
+                        Xobj.iat[r_, j] = v
+            again = sut(fn, Xobj)
+            if isinstance(again, Raised):
+                discs.append(D("apply_raised:%s.%s:%s" % (spec["kind"], m, again.type), "same container reordered in place: " + again.msg))
+            else:
+                d = rows_equal(norm_out(again), [b[i] for i in perm])
+                if d:
+                    discs.append(D("stale_result_for_container_changed_in_place:%s.%s" % (spec["kind"], m), "perm=%s: %s" % (perm, d)))
         # permutation
         p = sut(fn, sel_wrap(perm))
         if isinstance(p, Raised):
